@@ -15,6 +15,7 @@ import (
 	"time"
 
 	"github.com/brewlin/net-protocol/pkg/waiter"
+	"github.com/brewlin/net-protocol/pkg/sleep"
 	tcpip "github.com/brewlin/net-protocol/protocol"
 	"github.com/brewlin/net-protocol/protocol/transport/tcp"
 	"github.com/brewlin/net-protocol/protocol/transport/udp"
@@ -1043,6 +1044,20 @@ func (c *child) runPress(cs *Case, slot int, obs map[string]bool) error {
 			na := wire.BuildICMPv6(src6, own6, 136, 0, [4]byte{0x60, 0, 0, 0}, body)
 			c.Inject(2, 0x86dd, [][]byte{wire.BuildIPv6(src6, own6, 58, na, 255)})
 		}
+	case "neigh-failed": // the stack asked for a neighbour that stayed silent (entry failed after 3 requests); then it speaks
+		_, own2, _ := addrs(4, 2)
+		_, own6, _ := addrs(6, 2)
+		silent4 := []byte{10, 0, 1, 77}
+		silent6 := append(append([]byte{}, ip6("fd01::")[:14]...), 0x77, 0x77)
+		c.h.S.GetLinkAddress(2, tcpip.Address(silent4), tcpip.Address(own2), wire.ProtoIPv4, &sleep.Waker{})
+		c.h.S.GetLinkAddress(2, tcpip.Address(silent6), tcpip.Address(own6), wire.ProtoIPv6, &sleep.Waker{})
+		time.Sleep(3400 * time.Millisecond)
+		mac := []byte{2, 0, 0, 9, 9, 9}
+		c.Inject(2, 0x0806, [][]byte{wire.BuildARP(2, mac, silent4, []byte{2, 0, 0, 0, 0, 2}, own2)}) // late reply
+		c.Inject(2, 0x0806, [][]byte{wire.BuildARP(1, mac, silent4, make([]byte, 6), own2)})         // and a request from it
+		body := append(append([]byte{}, silent6...), 2, 1, mac[0], mac[1], mac[2], mac[3], mac[4], mac[5])
+		na := wire.BuildICMPv6(silent6, own6, 136, 0, [4]byte{0x60, 0, 0, 0}, body)
+		c.Inject(2, 0x86dd, [][]byte{wire.BuildIPv6(silent6, own6, 58, na, 255)})
 	default:
 		vh.Fatal("pressure family %q", q)
 	}
